@@ -1,4 +1,5 @@
 import PV.C12.Model
+import PV.C12.Spec
 /-! C12 — helper lemmas (induction principle for `Tree`, list companions, inversion of `conf`,
     permutation bookkeeping). -/
 namespace PV.C12
@@ -24,6 +25,21 @@ theorem Tree.indL (P : Tree → Prop)
     | head => exact Tree.ind P hleaf hnone hsome hlist hnode t
     | tail _ h => exact Tree.indL P hleaf hnone hsome hlist hnode ts x h
 end
+
+mutual
+theorem Tree.beq_refl : ∀ t : Tree, Tree.beq t t = true
+  | .leaf a => by simp [Tree.beq]
+  | .none => by simp [Tree.beq]
+  | .some t => by simp [Tree.beq, Tree.beq_refl t]
+  | .list xs => by simp [Tree.beq, Tree.beqL_refl xs]
+  | .node k r fs => by simp [Tree.beq, Tree.beqL_refl fs]
+theorem Tree.beqL_refl : ∀ ts : List Tree, Tree.beqL ts ts = true
+  | [] => by simp [Tree.beqL]
+  | t :: ts => by simp [Tree.beqL, Tree.beq_refl t, Tree.beqL_refl ts]
+end
+
+theorem Tree.ne_of_beq_false {a b : Tree} (h : Tree.beq a b = false) : a ≠ b := by
+  intro e; subst e; rw [Tree.beq_refl] at h; cases h
 
 /-! ### the list companions of the mutual definitions are maps -/
 theorem foldL_eq (p : FoldProg) (f) (xs : List Tree) : foldL p f xs = xs.map (foldT p f) := by
@@ -671,4 +687,245 @@ theorem visit_perm_shape {p sch carry need skip} (hf : VisitFacts p sch carry ne
       refine hf.hneed2 k hlt hnd hsk s ?_ k' hk' hck'
       rw [fieldsOf_eq hk]
       exact List.mem_of_getElem? hs1
+
+/-! ### ConstantOptimizer -/
+open Opt
+
+theorem foldableL_eq (c) (xs : List Tree) : Spec.foldableL c xs = xs.all (Spec.foldable c) := by
+  induction xs with
+  | nil => simp [Spec.foldableL]
+  | cons t ts ih => simp [Spec.foldableL, ih]
+
+theorem foldable_node (c k r fs) : Spec.foldable c (.node k r fs) =
+    (k == c.const || (k == c.tuple && match eltsOf fs with
+      | some elts => elts.all (Spec.foldable c)
+      | none => false)) := by
+  unfold Spec.foldable eltsOf
+  split <;> simp_all [foldableL_eq]
+
+theorem tupleStep_isNode (c k r fs') : ∃ k' r' fs'', tupleStep c k r fs' = .node k' r' fs'' := by
+  unfold tupleStep mkConst
+  split
+  · split
+    · split <;> exact ⟨_, _, _, rfl⟩
+    · exact ⟨_, _, _, rfl⟩
+  · exact ⟨_, _, _, rfl⟩
+
+theorem constTuple_eq_list (c) : ∀ a ys, constTuple c a = .list ys → ∃ xs, a = .list xs ∧ ys = xs.map (constTuple c)
+  | .leaf _, ys, h => by simp [constTuple] at h
+  | .none, ys, h => by simp [constTuple] at h
+  | .some _, ys, h => by simp [constTuple] at h
+  | .list xs, ys, h => by simp [constTuple, constTupleL_eq] at h; exact ⟨xs, rfl, h.symm⟩
+  | .node k r fs, ys, h => by
+    obtain ⟨k', r', fs'', he⟩ := tupleStep_isNode c k r (constTupleL c fs)
+    simp [constTuple, he] at h
+
+theorem eltsOf_map (c) (fs : List Tree) :
+    eltsOf (fs.map (constTuple c)) = (eltsOf fs).map (·.map (constTuple c)) := by
+  match fs with
+  | [] => simp [eltsOf]
+  | [a] => simp [eltsOf]
+  | a :: b :: c' :: rest => simp [eltsOf]
+  | [a, b] =>
+    cases a with
+    | list xs => simp [eltsOf, constTuple, constTupleL_eq]
+    | leaf _ => simp [eltsOf, constTuple]
+    | none => simp [eltsOf, constTuple]
+    | some _ => simp [eltsOf, constTuple]
+    | node k r fs =>
+      obtain ⟨k', r', fs'', he⟩ := tupleStep_isNode c k r (constTupleL c fs)
+      simp [eltsOf, constTuple, he]
+
+theorem optL_eq (c) (xs : List Tree) : Spec.optL c xs = xs.map (Spec.opt c) := by
+  induction xs with
+  | nil => simp [Spec.optL]
+  | cons t ts ih => simp [Spec.optL, ih]
+
+theorem noFoldL_eq (c) (xs : List Tree) :
+    Spec.noFoldableStoreTupleL c xs = xs.all (Spec.noFoldableStoreTuple c) := by
+  induction xs with
+  | nil => simp [Spec.noFoldableStoreTupleL]
+  | cons t ts ih => simp [Spec.noFoldableStoreTupleL, ih]
+
+theorem constTuple_node (c k r fs) :
+    constTuple c (.node k r fs) = tupleStep c k r (fs.map (constTuple c)) := by
+  simp [constTuple, constTupleL_eq]
+
+theorem specOpt_node (c k r fs) :
+    Spec.opt c (.node k r fs) = Spec.tupleStep c k r (fs.map (Spec.opt c)) := by
+  simp [Spec.opt, optL_eq]
+
+theorem ctxOf_map (c) (fs : List Tree) : ctxOf (fs.map (constTuple c)) = ctxOf fs := by
+  match fs with
+  | [] => simp [ctxOf]
+  | [a] => simp [ctxOf]
+  | a :: b :: c' :: rest => simp [ctxOf]
+  | [a, b] =>
+    cases b with
+    | leaf x => simp [ctxOf, constTuple]
+    | list xs => simp [ctxOf, constTuple]
+    | none => simp [ctxOf, constTuple]
+    | some _ => simp [ctxOf, constTuple]
+    | node k r fs =>
+      obtain ⟨k', r', fs'', he⟩ := tupleStep_isNode c k r (constTupleL c fs)
+      simp [ctxOf, constTuple, he]
+
+theorem eltsOf_mem {fs : List Tree} {elts} (h : eltsOf fs = some elts) : Tree.list elts ∈ fs := by
+  unfold eltsOf at h
+  split at h
+  · cases h; simp
+  · cases h
+
+/-- after optimisation a node is a constant exactly if the original subtree was foldable -/
+theorem isConst_constTuple (c : OptCfg) (hne : c.tuple ≠ c.const) :
+    ∀ t, (isConstNode c (constTuple c t) = Spec.foldable c t) ∧
+      (∀ xs, t = .list xs → ∀ x ∈ xs, isConstNode c (constTuple c x) = Spec.foldable c x) := by
+  intro t
+  induction t using Tree.ind with
+  | hleaf a => simp [constTuple, isConstNode, Spec.foldable]
+  | hnone => simp [constTuple, isConstNode, Spec.foldable]
+  | hsome t ih => simp [constTuple, isConstNode, Spec.foldable]
+  | hlist xs ih =>
+    refine ⟨by simp [constTuple, isConstNode, Spec.foldable], ?_⟩
+    intro ys h x hx
+    cases h
+    exact (ih x hx).1
+  | hnode k r fs ih =>
+    refine ⟨?_, by intro xs h; cases h⟩
+    rw [constTuple_node, foldable_node]
+    unfold tupleStep
+    by_cases hk : (k == c.tuple) = true
+    · have hkc : (k == c.const) = false := by
+        simp at hk; subst hk; simp; exact hne
+      simp only [hk, if_true, hkc, Bool.false_or, Bool.true_and, eltsOf_map]
+      cases he : eltsOf fs with
+      | none => simp [isConstNode, hkc]
+      | some elts =>
+        have hall : (elts.map (constTuple c)).all (isConstNode c) = elts.all (Spec.foldable c) := by
+          have hx : ∀ x ∈ elts, isConstNode c (constTuple c x) = Spec.foldable c x :=
+            (ih _ (eltsOf_mem he)).2 elts rfl
+          rw [Bool.eq_iff_iff]
+          simp only [List.all_map, List.all_eq_true, Function.comp_apply]
+          constructor
+          · intro h x hm; rw [← hx x hm]; exact h x hm
+          · intro h x hm; rw [hx x hm]; exact h x hm
+        simp only [Option.map_some]
+        rw [hall]
+        cases hf : elts.all (Spec.foldable c) with
+        | true => simp [mkConst, isConstNode]
+        | false => simp [isConstNode, hkc]
+    · have hk' : (k == c.tuple) = false := by simpa using hk
+      simp [hk', isConstNode]
+
+theorem tupleStep_agree (c : OptCfg) (hne : c.tuple ≠ c.const) (k r) (fs : List Tree)
+    (hih : ∀ x ∈ fs, (isConstNode c (constTuple c x) = Spec.foldable c x) ∧
+      (∀ xs, x = .list xs → ∀ y ∈ xs, isConstNode c (constTuple c y) = Spec.foldable c y))
+    (hd : (k == c.tuple && ctxOf fs != some Spec.loadText && Spec.foldable c (.node k r fs)) = false) :
+    tupleStep c k r (fs.map (constTuple c)) = Spec.tupleStep c k r (fs.map (constTuple c)) := by
+  unfold tupleStep Spec.tupleStep
+  by_cases hk : (k == c.tuple) = true
+  · have hkc : (k == c.const) = false := by
+      simp at hk; subst hk; simp; exact hne
+    simp only [hk, if_true, eltsOf_map, ctxOf_map]
+    rw [foldable_node] at hd
+    simp only [hk, hkc, Bool.true_and, Bool.false_or] at hd
+    cases he : eltsOf fs with
+    | none => simp
+    | some elts =>
+      have hall : (elts.map (constTuple c)).all (isConstNode c) = elts.all (Spec.foldable c) := by
+        have hx : ∀ x ∈ elts, isConstNode c (constTuple c x) = Spec.foldable c x :=
+          (hih _ (eltsOf_mem he)).2 elts rfl
+        rw [Bool.eq_iff_iff]
+        simp only [List.all_map, List.all_eq_true, Function.comp_apply]
+        constructor
+        · intro h x hm; rw [← hx x hm]; exact h x hm
+        · intro h x hm; rw [hx x hm]; exact h x hm
+      simp only [Option.map_some]
+      rw [he] at hd
+      simp only [] at hd
+      cases hf : elts.all (Spec.foldable c) with
+      | false =>
+        have hA : (elts.map (constTuple c)).all (isConstNode c) = false := by rw [hall]; exact hf
+        cases hc : ctxOf fs with
+        | none => simp only [hA]; simp
+        | some ctx => simp only [hA]; simp
+      | true =>
+        have hA : (elts.map (constTuple c)).all (isConstNode c) = true := by rw [hall]; exact hf
+        rw [hf, Bool.and_true] at hd
+        cases hc : ctxOf fs with
+        | none => rw [hc] at hd; simp at hd
+        | some ctx =>
+          rw [hc] at hd
+          have : ctx = Spec.loadText := by simpa using hd
+          subst this
+          simp only [hA]; simp
+  · have hk' : (k == c.tuple) = false := by simpa using hk
+    simp [hk']
+
+theorem opt_spec_aux (c : OptCfg) (hne : c.tuple ≠ c.const) :
+    ∀ t, Spec.noFoldableStoreTuple c t = true → constTuple c t = Spec.opt c t := by
+  intro t
+  induction t using Tree.ind with
+  | hleaf a => intro _; simp [constTuple, Spec.opt]
+  | hnone => intro _; simp [constTuple, Spec.opt]
+  | hsome t ih => intro h; simp [Spec.noFoldableStoreTuple] at h; simp [constTuple, Spec.opt, ih h]
+  | hlist xs ih =>
+    intro h
+    simp only [Spec.noFoldableStoreTuple, noFoldL_eq, List.all_eq_true] at h
+    simp only [constTuple, Spec.opt, constTupleL_eq, optL_eq]
+    congr 1
+    exact List.map_congr_left fun x hx => ih x hx (h x hx)
+  | hnode k r fs ih =>
+    intro h
+    simp only [Spec.noFoldableStoreTuple, noFoldL_eq, Bool.and_eq_true, List.all_eq_true,
+      Bool.not_eq_true'] at h
+    have hmap : fs.map (constTuple c) = fs.map (Spec.opt c) :=
+      List.map_congr_left fun x hx => ih x hx (h.1 x hx)
+    rw [constTuple_node, specOpt_node, ← hmap]
+    exact tupleStep_agree c hne k r fs (fun x _ => isConst_constTuple c hne x) h.2
+/-- a fixed field list stays fixed under `tupleStep` followed by another pass -/
+theorem constTuple_tupleStep (c : OptCfg) (hne : c.tuple ≠ c.const) (k r) (fs' : List Tree)
+    (hfix : fs'.map (constTuple c) = fs') :
+    constTuple c (tupleStep c k r fs') = tupleStep c k r fs' := by
+  have hnode : constTuple c (.node k r fs') = tupleStep c k r fs' := by
+    rw [constTuple_node, hfix]
+  have hconst : ∀ elts, constTuple c (mkConst c r elts) = mkConst c r elts := by
+    intro elts
+    have : (c.const == c.tuple) = false := by simp; exact fun h => hne h.symm
+    simp [mkConst, constTuple_node, tupleStep, this, constTuple]
+  by_cases h1 : (k == c.tuple) = true
+  · cases he : eltsOf fs' with
+    | none =>
+      have : tupleStep c k r fs' = .node k r fs' := by simp [tupleStep, h1, he]
+      rw [this, hnode, this]
+    | some elts =>
+      cases ha : elts.all (isConstNode c) with
+      | true =>
+        have : tupleStep c k r fs' = mkConst c r elts := by simp only [tupleStep, h1, he, ha]; simp
+        rw [this]; exact hconst _
+      | false =>
+        have : tupleStep c k r fs' = .node k r fs' := by simp only [tupleStep, h1, he, ha]; simp
+        rw [this, hnode, this]
+  · have h1' : (k == c.tuple) = false := by simpa using h1
+    have : tupleStep c k r fs' = .node k r fs' := by simp [tupleStep, h1']
+    rw [this, hnode, this]
+
+theorem opt_idempotent_aux (c : OptCfg) (hne : c.tuple ≠ c.const) :
+    ∀ t, constTuple c (constTuple c t) = constTuple c t := by
+  intro t
+  induction t using Tree.ind with
+  | hleaf a => simp [constTuple]
+  | hnone => simp [constTuple]
+  | hsome t ih => simp [constTuple, ih]
+  | hlist xs ih =>
+    simp only [constTuple, constTupleL_eq, List.map_map]
+    congr 1
+    apply List.map_congr_left
+    intro x hx; exact ih x hx
+  | hnode k r fs ih =>
+    rw [constTuple_node]
+    apply constTuple_tupleStep c hne
+    rw [List.map_map]
+    apply List.map_congr_left
+    intro x hx; exact ih x hx
 end PV.C12
